@@ -27,7 +27,7 @@ GNext ==
                              ELSE [op |-> "del", k |-> wr.k,
                                    res |-> IF keydir[wr.k] # NoKE THEN "true" ELSE "false", exp |-> model'])
     \/ MergeNewActive /\ Done([op |-> "merge", exp |-> model])
-    \/ (MergeCreateData \/ MergeCreateHint \/ (\E k \in Keys : MergeCopy(k)) \/ MergeRepoint
+    \/ (MergeCreateData \/ MergeCreateHint \/ (\E k \in Keys : MergeCopy(k)) \/ MergeCopyMore \/ MergeRepoint
           \/ MergeHint \/ MergeSyncData \/ MergeSyncHint \/ MergeLoopEnd \/ MergeUnlinkHint
           \/ MergeUnlinkData) /\ UNCHANGED hist
 
